@@ -4,6 +4,7 @@
 # against the copy (evidence and replays go to the scratch dir too), prints
 # the outcome and removes the copy.  Never touches /repo or /verif/evidence.
 set -u
+here=$(cd "$(dirname "$0")/.." && pwd)   # run the code next to this script (a vp-run snapshot stays self-consistent)
 patch=$(realpath "$1"); check=$2; shift 2
 d=$(mktemp -d /dev/shm/mut.XXXXXX)
 trap 'rm -rf "$d"' EXIT
@@ -12,7 +13,7 @@ rsync -a --exclude .git /repo/ "$d/repo/"
 if [ -n "${MUT_TESTS:-}" ]; then
   ( cd "$d/repo" && timeout 900 /venv/bin/python -m pytest -q -x -p no:cacheprovider tests 2>&1 | tail -1 )
 fi
-SQLPARSE_VERIF_REPO="$d/repo" SIM_OUT_DIR="$d/out" timeout 3000 /venv/bin/python /verif/simcheck.py "$check" "$@" > "$d/log" 2>&1
+SQLPARSE_VERIF_REPO="$d/repo" SIM_OUT_DIR="$d/out" timeout 3000 /venv/bin/python "$here/simcheck.py" "$check" "$@" > "$d/log" 2>&1
 rc=$?
 mkdir -p /dev/shm/mutlogs; cp "$d/log" "/dev/shm/mutlogs/$(basename $patch .patch)-$check.log" 2>/dev/null
 grep -E "VIOLATION|HARNESS|KNOWN|runs \(" "$d/log" | sed "s#$d#<scratch>#g" | head -8
